@@ -34,8 +34,27 @@ class G:
         return "%s %d %s" % (kind, b, " ".join(map(str, v))) if n else "%s %d" % (kind, b)
 
     def cons(self, n, topo, lo=1, hi=4):
-        k = self.r.randint(lo, hi)
+        r = self.r
+        if n > 0 and r.random() < 0.18:
+            return self.thin_cons(n, topo)
+        k = r.randint(lo, hi)
         return "%d %s" % (k, " ".join(self.con(n, topo) for _ in range(k)))
+
+    def thin_cons(self, n, topo):
+        """pairs of opposite bounds on one expression with gap -1 / 0 / +1 (and strict variants for NNC):
+        empty-but-not-detected, lower-dimensional and very thin sets"""
+        r = self.r
+        v = self.vec(n, nz=True)
+        b = r.randint(-3, 3)
+        gap = r.choice([-1, 0, 0, 1])
+        k1 = ">" if (topo == "NNC" and r.random() < 0.5) else ">="
+        k2 = ">" if (topo == "NNC" and r.random() < 0.5) else ">="
+        # v.x + b >= 0  and  -v.x - b + gap >= 0
+        cs = ["%s %d %s" % (k1, b, " ".join(map(str, v))), "%s %d %s" % (k2, -b + gap, " ".join(str(-x) for x in v))]
+        extra = r.randint(0, 2)
+        cs += [self.con(n, topo) for _ in range(extra)]
+        r.shuffle(cs)
+        return "%d %s" % (len(cs), " ".join(cs))
 
     def gen(self, n, topo, kind=None):
         r = self.r
